@@ -787,7 +787,8 @@ impl<P: PageTableFrameMapping> PageTableWalker<P> {
 
         if entry.is_unused() {
             if let Some(frame) = allocator.allocate_frame() {
-                entry.set_frame(frame, insert_flags);
+                // a new table must be reachable whatever parent flags were asked for
+                entry.set_frame(frame, PageTableFlags::PRESENT | insert_flags);
                 created = true;
             } else {
                 return Err(PageTableCreateError::FrameAllocationFailed);
